@@ -442,7 +442,12 @@ def fn_table(text):
 def vacuity_variant(text):
     """insert `assert(false);` at the start of every non-spec, non-external fn body.
     Returns (variant_text, list of (fn name, line of the inserted assert in the variant))."""
-    fns = [f for f in fn_table(text) if f["has_body"] and f["mode"] != "spec" and not f["external"]]
+    # only functions inside the verus! { } macro are verified code
+    vm = re.search(r"\bverus!\s*\{", text)
+    vlo = vm.end() if vm else 0
+    vhi = text.rfind("} // verus!")
+    if vhi < 0: vhi = len(text)
+    fns = [f for f in fn_table(text) if f["has_body"] and f["mode"] != "spec" and not f["external"] and vlo <= f["body_open"] < vhi]
     fns.sort(key=lambda f: f["body_open"])
     out = []
     pos = 0
@@ -465,11 +470,19 @@ TRUST_PATTERNS = [r"\bassume\s*\(", r"\badmit\s*\(", r"external_body", r"\bassum
 
 def trusted_scan(text):
     found = []
-    for n, l in enumerate(text.split("\n"), 1):
+    lines = text.split("\n")
+    for n, l in enumerate(lines, 1):
         code = l.split("//")[0]
         for p in TRUST_PATTERNS:
             if re.search(p, code):
-                found.append((n, p, l.strip()))
+                desc = l.strip()
+                if re.fullmatch(r"#\[[^\]]*\]", desc):
+                    # attribute-only line: name the item it applies to
+                    for k in range(n, min(n + 6, len(lines))):
+                        m = re.search(r"\b(fn|struct|enum|impl|type)\s+[A-Za-z_][A-Za-z0-9_<>:, ]*", lines[k])
+                        if m: desc += " " + m.group(0).strip(); break
+                found.append((n, p, desc))
+                break
     return found
 
 if __name__ == "__main__":
